@@ -142,9 +142,12 @@ def generate(rng, i, tier):
         allF = sorted({l for F in planted for l in F})
         tl = rng.choice(allF) if (allF and rng.random() < 0.7) else rng.choice(cand)
         tail = {"kind": rng.choice(["stop", "skip"]), "line": tl}
+    # a SECOND erroring top-level component on the same offending lines: each error is one error (record, message)
+    double = (not or_single) and (not via_import) and rng.random() < 0.2
     return {
         "seed": rng.getrandbits(32),
         "policy": pol,
+        "double": double,
         "deco": "empty_term" if rng.random() < 0.2 else None,
         "pre_shared": pre_shared,
         "via_import": via_import,
@@ -182,6 +185,8 @@ def reductions(sc):
         yield with_(sc, via_import=False)
     if sc.get("or_single"):
         yield with_(sc, or_single=False)
+    if sc.get("double"):
+        yield with_(sc, double=False)
     for j, F in enumerate(sc["planted"]):
         for l in F:
             c = with_(sc)
@@ -334,6 +339,8 @@ def member_text(sc, j, file=""):
     t = sc.get("tail")
     tail = f" line_number() == {t['line']} -> {t['kind']}()" if t else ""
     prov = f'import("lib{j}")' if sc.get("via_import") else provoker(sc["kind"], j, sc.get("deco"))
+    if sc.get("double"):
+        prov += ' simfault("s2")'
     return f'~{head}~ ${file}[{sc["scan"]}][ push("pre", line_number()) {prov}{tail} push("post", line_number()) ]'
 
 
@@ -351,6 +358,8 @@ def execute(sc):
     k = len(sc["planted"])
     exp, aborted = model(sc)
     plan = [(f"m{j}", l, "s") for j in range(k) for l in sc["planted"][j]]
+    if sc.get("double"):
+        plan += [(f"m{j}", l, "s2") for j in range(k) for l in sc["planted"][j]]
     facts = {"kind": sc["kind"], "managed": sc["managed"], "quiet": "quiet" in sc["policy"], "override": sc["override"]["value"] if sc["override"] else None}
     with W.World(csvpath_policy=sc["policy"] or ["collect"]) as w:
         w.write_csv("src/f.csv", build_rows(sc))
@@ -457,6 +466,19 @@ def execute(sc):
                     extra=bool(set(errl) - e["err_lines"]),
                     **facts,
                 )
+            if sc.get("double"):
+                P2, _ = effective(sc["policy"], sc["override"]["value"] if sc["override"] and sc["override"]["member"] == j else None)
+                twice = sorted({l for kd, ident, l, site in extfuncs.FaultState.fired if site == "s2" and ident == f"m{j}" and l in bad})
+                if twice:
+                    out.probe("two components raised on the same line")
+                if not P2["raise"]:
+                    for l in twice:
+                        nrec_l = sum(1 for x in g["errors"] if x.line_count == l)
+                        if P2["collect"] and nrec_l < 2:
+                            out.v("collect_semantics", f"{mw}: two components raised on line {l} but {nrec_l} error record(s) carry that line number: {ops.norm_errors(g['errors'])!r:.300}", per_error=True, **facts)
+                            break
+                    if P2["print"] and len(g["printed"]) < e.get("print_count", 0) + len(twice):
+                        out.v("print_semantics", f"{mw}: {e.get('print_count', 0)} + {len(twice)} errors were raised with 'print' in effect but the printers received {len(g['printed'])} message(s)", per_error=True, **facts)
             if cp.is_valid != e["valid"]:
                 out.v("fail_semantics", f"{mw}: is_valid={cp.is_valid}, expected {e['valid']}", **facts)
             if bool(g["printed"]) != e["printed"]:
@@ -474,7 +496,10 @@ def execute(sc):
                 # validation-mode: match is documented as "return True on error": where the unchanged library honours that
                 # (every error kind except an exception inside a match-position function), the offending line must be returned
                 P_eff, _m = effective(sc["policy"], sc["override"]["value"] if sc["override"] and sc["override"]["member"] == j else None)
-                if e["match"] and sc["kind"] in MATCH_MODE_HONOURED and not P_eff["stop"] and not P_eff["raise"] and not sc.get("tail"):
+                # (a 'stop' written in the validation-mode comment itself makes a match-position function stop the run
+                # mid-line; a 'stop' that only comes from the configured policy takes effect after the line)
+                vm_words = (sc["override"]["value"].split(",") if sc["override"] and sc["override"]["member"] == j else [])
+                if e["match"] and sc["kind"] in MATCH_MODE_HONOURED and not P_eff["raise"] and not sc.get("tail") and not sc.get("double") and "stop" not in [x.strip() for x in vm_words]:
                     lost = [l for l in e["evaluated"] if l in bad and l not in ret and (l >= 1 or ret_has_header)]
                     if lost:
                         out.v("match_mode_ignored", f"{mw}: validation-mode says match but offending lines {lost} were not returned (returned {ret})", **facts)
@@ -500,6 +525,7 @@ def execute(sc):
         out.probe("erroring subtree contains an empty-string term", bool(sc.get("deco")))
         out.probe("erroring component pulled in with import()", bool(sc.get("via_import")))
         out.probe("logic-mode OR with the erroring component alone", bool(sc.get("or_single")))
+        out.probe("two components raised on the same line", False)
         out.probe("an earlier CsvPath sharing the Config object ran with a contradicting override", False)
         out.probe("stop()/skip() later on an offending line", bool(sc.get("tail")) and any(sc["tail"]["line"] in F for F in sc["planted"]))
         out.nontrivial = evaluated_any
